@@ -1090,6 +1090,55 @@ pub fn gen_c13(r: &mut Rng, id: usize) -> Group {
     if r.chance(10) {
         return gen_c13_bindings(r, id);
     }
+    if r.chance(10) {
+        // the bindings in scope are the same in every position: an expression over `--set` variables and macros, in
+        // each of the five option positions, against the same expression with the bound values written out
+        let v = r.ps(&["2", "\"b\"", "\"k\"", "[1, 2]", "1"]);
+        let m = r.ps(&[".k", "(size .l)", "(get . \"k\")", "(default .j 0)"]);
+        let shapes: &[(&str, &str)] = &[
+            ("(push [] :v @m)", "(push [] {v} {m})"),
+            ("(get . :v)", "(get . {v})"),
+            ("(? (= @m :v) .k .j)", "(? (= {m} {v}) .k .j)"),
+            ("(default @m :v)", "(default {m} {v})"),
+            ("(push (default .l []) :v)", "(push (default .l []) {v})"),
+        ];
+        let (with, without) = *r.pick(shapes);
+        let plain = without.replace("{v}", v).replace("{m}", m);
+        let u = key_universe_small();
+        let rows = { let n_ = r.range(1, 8); gen_rows(r, n_, &u) };
+        let (bytes, _) = stream_of(r, &rows, false);
+        let pos = r.below(5);
+        let mk = |name: &str, e: &str, sets: bool| {
+            let mut c = case(format!("C13-{id}-{name}"));
+            if sets {
+                c.spec.sets.push(format!("v={v}"));
+                c.spec.sets.push(format!("@m={m}"));
+            }
+            match pos {
+                0 => c.spec.selects.push(format!("{e}=x")),
+                1 => c.spec.filter = Some(format!("(not (empty? (stringify {e})))")),
+                2 => c.spec.sorts.push(format!("(stringify {e})")),
+                3 => c.spec.group = Some(Some(format!("(stringify {e})"))),
+                _ => c.spec.split = Some(format!("(push [] {e} .id)")),
+            }
+            if pos != 0 {
+                c.spec.selects.push(".id=id".into());
+                c.spec.selects.push(format!("{e}=x"));
+            }
+            if pos == 3 {
+                c.spec.selects.clear();
+            }
+            c.spec.utf8 = true;
+            c.sources.push(stdin_src(bytes.clone()));
+            c
+        };
+        let mut g = Group::new(vec![mk("bound", with, true), mk("written-out", &plain, false)]);
+        g.tag = "boundpos".into();
+        g.nontrivial = true;
+        g.labels.push(format!("position:{pos}"));
+        g.labels.push("kind:bindings-in-position".into());
+        return g;
+    }
     // the same expression canonical vs respelled (alias, commas, padding, dot sugar), in the five positions
     let seed = r.next();
     let ty = *r.pick(&[Ty::Any, Ty::Str, Ty::Bool, Ty::Arr, Ty::Num]);
@@ -1236,6 +1285,40 @@ pub fn respell(r: &mut Rng, e: &str) -> String {
 // ---------------------------------------------------------------------------------- C14
 
 pub fn gen_c14(r: &mut Rng, id: usize) -> Group {
+    if r.chance(12) {
+        // several input files: once --take is satisfied inside one file, the files after it are not read at all.
+        // What makes a later file observable without an endless file: it holds malformed bytes, and
+        // --on-error=stderr would report them if they were read; its values never reach the limiter (duplicates under
+        // --unique, or filtered out), so a Break that got lost between files would go unnoticed on standard output
+        let t = r.range(1, 4) as u64;
+        let mut c = case(format!("C14-{id}-files"));
+        c.spec.take = Some(t);
+        c.spec.on_error = Some("stderr".into());
+        let drop_by_unique = r.chance(50);
+        if drop_by_unique {
+            c.spec.unique = true;
+        } else {
+            c.spec.filter = Some("(< .id 100)".into());
+        }
+        let extra = r.below(3) as u64;
+        let f0: String = (0..t + extra).map(|i| format!("{{\"id\":{i}}}\n")).collect();
+        let tail_rows: String = (0..r.range(1, 5)).map(|i| if drop_by_unique { format!("{{\"id\":{}}}\n", i as u64 % t) } else { format!("{{\"id\":{}}}\n", 100 + i) }).collect();
+        let f1 = format!("{} {}{}", r.ps(&["x", "} ]", "@@ #", ", :"]), tail_rows, r.ps(&["", "?", "]"]));
+        let nfiles_before = r.below(2);
+        for i in 0..nfiles_before {
+            c.sources.push(Source { name: Some(format!("empty{i}.json")), bytes: b" \n".to_vec() });
+        }
+        c.sources.push(Source { name: Some("in0.json".into()), bytes: f0.into_bytes() });
+        c.sources.push(Source { name: Some("in1.json".into()), bytes: f1.into_bytes() });
+        if r.chance(40) {
+            c.sources.push(Source { name: Some("in2.json".into()), bytes: b"oops {\"id\":0}".to_vec() });
+        }
+        let mut g = Group::new(vec![c]);
+        g.tag = "files-after-take".into();
+        g.nontrivial = true;
+        g.labels.push("kind:files-after-take".into());
+        return g;
+    }
     let u = key_universe_small();
     let rows = { let n_ = r.range(0, 14); gen_rows(r, n_, &u) };
     let mut c = case(format!("C14-{id}"));
@@ -1488,7 +1571,15 @@ pub fn gen_c17(r: &mut Rng, id: usize) -> Group {
     let mut multi = whole.clone();
     multi.id = format!("C17-{id}-files{k}");
     multi.sources = parts.iter().enumerate().map(|(i, b)| Source { name: Some(format!("part{i}.json")), bytes: b.clone() }).collect();
-    let mut g = Group::new(vec![whole, one, rnd, file, multi]);
+    // every part on its own: "files stay separate" means the run over f1..fn is the runs over each, one after the other
+    let mut cases = vec![whole.clone(), one, rnd, file, multi];
+    for (i, b) in parts.iter().enumerate() {
+        let mut alone = whole.clone();
+        alone.id = format!("C17-{id}-part{i}-alone");
+        alone.sources = vec![Source { name: Some(format!("part{i}.json")), bytes: b.clone() }];
+        cases.push(alone);
+    }
+    let mut g = Group::new(cases);
     g.values = vals;
     g.tag = format!("files={k} noisy={} ooa={} spans={}", noisy as u8, ooa as u8, spans.iter().map(|(a, b)| format!("{a}-{b}")).collect::<Vec<_>>().join(","));
     g.nontrivial = text.matches('\n').count() >= 1 || k >= 2;
@@ -2118,6 +2209,17 @@ pub fn oracle(prop: &str, g: &Group, obs: &[Obs]) -> Option<String> {
                 }
                 return None;
             }
+            if g.tag == "boundpos" {
+                let (a, b) = (&obs[0], &obs[1]);
+                if a.res != b.res {
+                    return Some(format!("with the bindings the run gives {}, with the bound values written out {}", a.res, b.res));
+                }
+                // the select names are the expression texts only where no name is given: all selects here are named
+                if a.out != b.out {
+                    return Some(format!("{}: an expression over --set bindings differs from the same expression with the values written out", g.labels.join(" ")));
+                }
+                return None;
+            }
             let (a, b) = (&obs[0], &obs[1]);
             if a.res != b.res || a.out != b.out {
                 return Some(format!("canonical and respelled forms differ ({} vs {})", a.res, b.res));
@@ -2129,6 +2231,22 @@ pub fn oracle(prop: &str, g: &Group, obs: &[Obs]) -> Option<String> {
                         return Some("value through a macro differs from the direct selection".into());
                     }
                 }
+            }
+            None
+        }
+        "C14" if g.tag == "files-after-take" => {
+            let (c, o) = (&g.cases[0], &obs[0]);
+            if o.res != "ok" {
+                return Some(format!("{}: run gave {} {}", c.id, o.res, o.panic_msg));
+            }
+            let t = c.spec.take.unwrap_or(0) as usize;
+            let rows = parse_rows(&o.out, "\n").ok()?;
+            if rows.len() != t {
+                return Some(format!("{}: --take {t} gave {} rows", c.id, rows.len()));
+            }
+            if !o.err.is_empty() {
+                return Some(format!("{}: --take {t} was satisfied inside the first non-empty file, yet a later file was read: its malformed bytes were reported ({})",
+                                    c.id, crate::runner::show_bytes(&o.err).chars().take(160).collect::<String>()));
             }
             None
         }
@@ -2236,6 +2354,33 @@ pub fn oracle(prop: &str, g: &Group, obs: &[Obs]) -> Option<String> {
                         }
                     }
                     prev_end = Some((el, ec));
+                }
+            }
+            // files f1..fn: the values of f1, then f2, …; no value spans two files (a value cut by a file boundary is
+            // malformed in both files); &index runs on, &index-in-file restarts, &file-name names the file
+            if obs.len() > 5 {
+                let multi = &obs[4];
+                let alone = &obs[5..];
+                if multi.res == "ok" && alone.iter().all(|o| o.res == "ok") {
+                    let mrows = parse_rows(&multi.out, "\n").ok()?;
+                    let mut want: Vec<(Option<V>, Option<V>, Option<V>)> = vec![];
+                    for o in alone {
+                        for row in parse_rows(&o.out, "\n").ok()? {
+                            want.push((get_key(&row, "v").cloned(), get_key(&row, "f").cloned(), get_key(&row, "n").cloned()));
+                        }
+                    }
+                    if mrows.len() != want.len() {
+                        return Some(format!("{}: {} rows for the files together, {} for the files one by one", g.cases[4].id, mrows.len(), want.len()));
+                    }
+                    for (k, (row, w)) in mrows.iter().zip(&want).enumerate() {
+                        let got = (get_key(row, "v").cloned(), get_key(row, "f").cloned(), get_key(row, "n").cloned());
+                        if &got != w {
+                            return Some(format!("{}: row {k} (value, &index-in-file, &file-name) differs between the files together and the files one by one", g.cases[4].id));
+                        }
+                        if get_key(row, "i") != Some(&V::Int(k as i128)) {
+                            return Some(format!("{}: row {k} has &index {:?}", g.cases[4].id, get_key(row, "i").map(value::render)));
+                        }
+                    }
                 }
             }
             None
